@@ -235,6 +235,8 @@ NEVER_EVALUATED = frozenset([
     "{% if fa[0] and X < 1 %}t{% else %}f{% endif %}", "{% if n or X.y == 1 and X %}t{% else %}f{% endif %}",
     "{% if nil and (X == 1 or X contains 2) %}t{% else %}f{% endif %}", "{{ 'a' if n or X == 1 else 'b' }}",
     "{% unless n or X > 1 %}t{% else %}f{% endunless %}", "{% if n %}t{% elsif X == 1 %}e{% endif %}",
+    # the values of a `when` are tried from left to right up to the first match
+    "{% case n %}{% when 3, X %}a{% endcase %}", "{% case n %}{% when 3 or X %}a{% else %}e{% endcase %}", "{% case 'q' %}{% when 'q', X, X.y %}a{% endcase %}",
 ])
 
 
@@ -250,6 +252,7 @@ def probe_templates(filters: list[str]) -> list[str]:
         "{% if fa[0] and X < 1 %}t{% else %}f{% endif %}", "{% if n or X.y == 1 and X %}t{% else %}f{% endif %}",
         "{% if nil and (X == 1 or X contains 2) %}t{% else %}f{% endif %}", "{{ 'a' if n or X == 1 else 'b' }}",
         "{% unless n or X > 1 %}t{% else %}f{% endunless %}", "{% if n %}t{% elsif X == 1 %}e{% endif %}",
+        "{% case n %}{% when 3, X %}a{% endcase %}", "{% case n %}{% when 3 or X %}a{% else %}e{% endcase %}", "{% case 'q' %}{% when 'q', X, X.y %}a{% endcase %}",
         "{{ 'a' if X else 'b' }}", "{{ X if n else 'b' }}", "{{ 'a' if n else X }}", "{{ 'a' if false else X | upcase }}",
         "{{ 'a' if X || upcase }}",
         "{% for i in X %}{{ i }}{% else %}e{% endfor %}", "{% for i in a limit: X %}{{ i }}{% endfor %}",
